@@ -1,7 +1,12 @@
 use crate::internal::{consts, DirEntry, MiniAllocator, ObjType, Timestamp};
 use std::fmt;
 use std::path::{Path, PathBuf};
+#[cfg(not(feature = "verif-hooks"))]
 use std::sync::{Arc, RwLock};
+#[cfg(feature = "verif-hooks")]
+use crate::internal::sync::RwLock;
+#[cfg(feature = "verif-hooks")]
+use std::sync::Arc;
 use uuid::Uuid;
 use web_time::SystemTime;
 
